@@ -9,8 +9,9 @@ Observed on the real code, for freshly generated python/shell task classes (vp.g
      accepts, one random) the task is submitted (`task(cache_root=fresh, worker="debug")`); the
      vp.evlog file records every body / fake-tool invocation, so "rejected before any execution"
      (0 start events) and "accepted tasks really ran" (1 start event) are observed.
-Oracle: vp.ref_rules (written from the statement).  MAY class (statement silent): whether 0, ""
-and a False held by a *required* `bool | None` field count as "set"; every such occurrence is read both
+Oracle: vp.ref_rules (written from the statement).  MAY class (statement silent): whether 0, "" in an
+exclusive group and a False held by a *required* `bool | None` field count as "set" (within the requires
+rule 0 and "" are set: they can be allowed values); every such occurrence is read both
 ways independently (three-valued evaluation) and an assignment whose outcome depends on a reading is
 MAY (counted in may_assignments with what pydra did, never a violation).
 """
